@@ -75,6 +75,7 @@ type vpOp struct {
 	Outs  map[string]string `json:"outs"` // clean exit: "<run>:<cat>" or "default" -> outcome name
 	Tag0  int64             `json:"tag0"` // bulk: N transactions, each with one transaction event tag0+i, priority prio0+i
 	Prio0 int64             `json:"prio0"`
+	Then  *vpOp             `json:"then"` // tick: a transaction handed over right behind the harvest request, with no pause
 }
 
 type vpHistory struct {
@@ -128,7 +129,19 @@ type vpCall struct {
 	version string
 	data    []byte
 	audit   []byte
+	snap    []byte // copy of data taken when the request was made
 	ret     chan collector.RPMResponse
+}
+
+// vpStable: a request is the application's own for as long as it is outstanding: a real client reads the payload
+// when an outbound slot is free and again for the audit log, not at the instant Execute is entered.  If the
+// bytes handed over have changed by the time the reply is given, the request no longer carries what its
+// application submitted (owner -2: identification of another application).
+func vpStable(q *vpReq) {
+	if q != nil && q.call != nil && !bytes.Equal(q.call.data, q.call.snap) {
+		q.Owner = -2
+		q.Valid = false
+	}
 }
 
 type vpClient struct {
@@ -146,6 +159,7 @@ func (c *vpClient) Execute(cmd *collector.RpmCmd, cs collector.RpmControls) coll
 	cmd.Data = data
 	audit, _ := cs.Collectible.CollectorJSON(true)
 	call := &vpCall{cmd: *cmd, lang: cs.AgentLanguage, version: cs.AgentVersion, data: data, audit: audit,
+		snap: append([]byte(nil), data...),
 		ret: make(chan collector.RPMResponse, 1)}
 	c.mu.Lock()
 	c.calls = append(c.calls, call)
@@ -699,6 +713,22 @@ func (r *vpRunner) collect(step *vpStep) {
 	}
 }
 
+func (r *vpRunner) handleTxn(op *vpOp, step *vpStep) {
+	msg := vpBuildTxn(fmt.Sprintf("r%d", op.Run), op)
+	for _, it := range op.Items {
+		if it.Cat == "metrics" {
+			r.sm.metric[it.Slot] = it.Tag
+		}
+		if it.Cat == "slow" {
+			r.sm.slow[it.Slot] = it.Tag
+		}
+	}
+	_, err := CommandsHandler{Processor: r.p}.HandleMessage(RawMessage{Type: MessageTypeBinary, Bytes: msg})
+	if err != nil {
+		step.Note = "handle: " + err.Error()
+	}
+}
+
 func (r *vpRunner) run(h *vpHistory) (obs vpObs) {
 	defer func() {
 		if e := recover(); e != nil {
@@ -741,20 +771,10 @@ func (r *vpRunner) run(h *vpHistory) (obs vpObs) {
 				step.Hung = true
 			}
 			r.settle(1)
+		case "nop":
+			// the transaction of this step was handed over with the harvest request of the step before
 		case "txn":
-			msg := vpBuildTxn(fmt.Sprintf("r%d", op.Run), op)
-			for _, it := range op.Items {
-				if it.Cat == "metrics" {
-					r.sm.metric[it.Slot] = it.Tag
-				}
-				if it.Cat == "slow" {
-					r.sm.slow[it.Slot] = it.Tag
-				}
-			}
-			_, err := CommandsHandler{Processor: r.p}.HandleMessage(RawMessage{Type: MessageTypeBinary, Bytes: msg})
-			if err != nil {
-				step.Note = "handle: " + err.Error()
-			}
+			r.handleTxn(op, &step)
 			r.settle(1)
 		case "bulk":
 			// N plain transactions in one step (large reservoirs: payload splitting, the daemon maximum)
@@ -805,6 +825,7 @@ func (r *vpRunner) run(h *vpHistory) (obs vpObs) {
 					} else {
 						r.attempts = append(r.attempts[:op.N], r.attempts[op.N+1:]...)
 					}
+					vpStable(a)
 					a.call.ret <- resp
 					r.settle(min)
 				}
@@ -815,10 +836,22 @@ func (r *vpRunner) run(h *vpHistory) (obs vpObs) {
 				id := r.ahRun[ah]
 				select {
 				case r.p.processorHarvestChan <- ProcessorHarvest{AppHarvest: ah, ID: id, Type: HarvestType(op.Ty)}:
+					if op.Then != nil {
+						// the next transaction is already waiting: the processor handles it as soon as it has
+						// started the harvest, while the sender goroutines of that harvest are only starting
+						select {
+						case <-r.p.trackProgress:
+						case <-time.After(3 * time.Second):
+						}
+						r.handleTxn(op.Then, &step)
+					}
 					r.settle(1)
 				case <-time.After(3 * time.Second):
 					step.Hung = true
 				}
+			} else if op.Then != nil {
+				r.handleTxn(op.Then, &step)
+				r.settle(1)
 			}
 		case "reply", "replycat":
 			idx := op.N
@@ -842,6 +875,7 @@ func (r *vpRunner) run(h *vpHistory) (obs vpObs) {
 				if resp.Err != nil {
 					min = 1
 				}
+				vpStable(q)
 				q.call.ret <- resp
 				r.settle(min)
 			}
